@@ -364,7 +364,7 @@ def make_raising(exc_name, arg_kind):
     return _cache[name]
 
 
-VALUE_KINDS = ["scalar0d", "len-raises", "lock", "generator", "tuple-keyed-dict", "huge-int", "set", "bytes", "nan", "file-handle"]
+VALUE_KINDS = ["scalar0d", "len-raises", "lock", "generator", "tuple-keyed-dict", "huge-int", "set", "bytes", "nan", "file-handle", "mixed-key-dict"]
 
 
 def unusual_value(kind):
@@ -387,6 +387,8 @@ def unusual_value(kind):
         return (i for i in range(3))           # cannot be copied; must not be consumed by an observer
     if kind == "tuple-keyed-dict":
         return {(0, 1): 2.5, (1, 0): 3.0}      # not a JSON object (keys)
+    if kind == "mixed-key-dict":
+        return {1: "one", "b": 2.0}            # JSON-serialisable, but its keys cannot be sorted against each other
     if kind == "huge-int":
         return 10 ** 5000                      # str() / json.dumps raise ValueError (int max str digits)
     if kind == "set":
